@@ -279,6 +279,20 @@ def apply_fault(ctx, tok, fault, alg, kind, enc, form, aad, stride=1, tag=""):
         tok.force_ek = ctx.choose(tag + "member", ["absent", "empty-string"]) == "empty-string"
         return "encrypted key removed/emptied for a key-wrapping algorithm", over
     if fault == "wrong-recipient-key":
+        which = ctx.choose(tag + "wrong_key", ["another key", "the password in another Unicode normal form"] if alg.startswith("PBES2") else ["another key"])
+        if which != "another key":
+            # the recipient's secret is a pass-phrase (precomposed text); the key presented spells the same text with other octets
+            import unicodedata
+            text = "caf\u00e9-p\u00e4ssw\u00f6rd-\ud55c\uae00"
+            right = {"kty": "oct", "k": b64.enc(text.encode("utf-8"))}
+            wrong = {"kty": "oct", "k": b64.enc(unicodedata.normalize("NFD", text).encode("utf-8"))}
+            if ctx.choose(tag + "direction", ["made for NFC, opened with NFD", "made for NFD, opened with NFC"]).startswith("made for NFD"):
+                right, wrong = wrong, right
+            fresh = JTok(form, rjwe.encrypt({"alg": alg, "enc": enc, "cty": "pw"}, PLAINTEXT, [{"jwk": right, "p2c": 1000}], aad=aad if form != "compact" else None,
+                                            form=form, rand=rjwe.Drbg(repr((alg, enc, form, "pw")).encode()), param_pos="protected" if form != "general" else "recipient"))
+            tok.__dict__.update(fresh.__dict__)
+            over["key"] = A.jkey(wrong, "dict")
+            return f"a pass-phrase key that spells the recipient's text in another normal form ({which})", over
         over["key"] = decrypt_keys(kind, form, wrong=True)
         return "another recipient key of the same type and size", over
     if fault == "wrong-sender-key":
@@ -668,9 +682,33 @@ def h_sequences(ctx):
     return Outcome(f"seq:{'first-ok' if r1.ok else 'first-rej'}:{'ok' if not vs else 'bad'}", vs, nontrivial=(alg, form, first, how_bad, edit))
 
 
+def h_zip_limit(ctx):
+    """An untouched, authenticated zip=DEF token whose plaintext lies a little above the decompression limit: whatever the library
+    does about the limit, it never hands out a plaintext other than the one that was encrypted."""
+    from joserfc import jwe
+    from . import c16
+    from ..ref.jwa import deflate
+    over = ctx.choose("octets_over_the_limit", [0, 1, 2, 5, 17, 38, 100, 195, 208, 257, 258, 259, 1000])
+    cls = ctx.choose("content", ["zeros", "short text repeated", "59-octet record repeated"])
+    form = ctx.choose("form", ["compact", "flattened"])
+    n = 256000 + over
+    unit = {"zeros": b"\0", "short text repeated": b"lorem ipsum ", "59-octet record repeated": b'{"id":1234567,"name":"alice","role":"user","active":true}\n\n'}[cls]
+    pt = (unit * (n // len(unit) + 1))[:n]
+    t = c16.jwe_seed("dir", "oct16", "A128GCM", form, zipv="DEF")
+    tok = c16.jwe_wire(t, form, body=deflate(pt))
+    key = A.jkey(scen.key("oct16"), "dict")
+    r = call(lambda: bytes((jwe.decrypt_compact(tok, key, algorithms=["dir", "A128GCM", "DEF"]) if isinstance(tok, str) else jwe.decrypt_json(tok, key, algorithms=["dir", "A128GCM", "DEF"])).plaintext))
+    vs = []
+    if r.ok and r.value != pt:
+        vs.append(viol("decrypt returns a plaintext other than the one that was encrypted [cut at the decompression limit]: dir gcm " + form,
+                       f"{cls}, {n} octets encrypted, {len(r.value)} returned"))
+    return Outcome(f"zip-limit:{'returned' if r.ok else 'rej:' + r.etype}", vs, nontrivial=(over, cls, form))
+
+
 PARTS = [
     Part("faults", h_faults, bound={"quick": 1, "thorough": 2}, split_depth=4, budget={"quick": 2000, "thorough": 3000}),
     Part("recipient-sets", h_recipients, split_depth=3),
     Part("sequences", h_sequences, split_depth=3),
+    Part("plaintexts-just-above-the-decompression-limit", h_zip_limit, split_depth=2),
     Part("thread-schedules", h_threads, bound={"quick": 1, "thorough": 2}, split_depth=2, budget={"quick": 2000, "thorough": 3000}, engine="E3"),
 ]
